@@ -34,6 +34,7 @@ struct Gate {
   int mode = 1;     // 0 completes inline in start(), 1 waits to be opened
   int on_stop = 1;  // 0 ignores stop, 1 completes with done from the stop callback
   bool no_open = false;  // never opened by an opener thread: only a stop request can complete it
+  bool throw_on_connect = false;  // fault: connect() throws gate_error{-7000} (once)
   const char* oracle = "c01";
   // history
   void* op = nullptr;
@@ -46,6 +47,7 @@ struct Gate {
   uint64_t stop_cb_seq = 0;
   int start_tid = -1, complete_tid = -1;
   int connects = 0;
+  bool connect_threw = false;
 };
 
 template <bool SendsValue>
@@ -144,7 +146,13 @@ struct basic_gate_sender {
     }
   };
   template <class R>
-  op<unifex::remove_cvref_t<R>> connect(R&& r) const { return op<unifex::remove_cvref_t<R>>{g, unifex::remove_cvref_t<R>((R &&) r)}; }
+  op<unifex::remove_cvref_t<R>> connect(R&& r) const {
+    if (g->throw_on_connect && !g->connect_threw) {
+      { usim::np_scope np; g->connect_threw = true; }
+      throw gate_error{-7000};
+    }
+    return op<unifex::remove_cvref_t<R>>{g, unifex::remove_cvref_t<R>((R &&) r)};
+  }
 };
 
 using gate_sender = basic_gate_sender<true>;
